@@ -43,7 +43,7 @@ func main() {
 	switch *prop {
 	case "C09":
 		run := ev.Begin("C09", *tier, "exploration")
-		enumx.Run(run, "C09", []string{"c09-modes", "c09-groups", "c09-singles", "c09-repeats", "c09-names", "c09-syscalls", "c09-missing", "c09-times", "c09-outcomes", "c09-relations", "c09-paths"}, *tier, 16, true)
+		enumx.Run(run, "C09", []string{"c09-modes", "c09-groups", "c09-singles", "c09-repeats", "c09-names", "c09-syscalls", "c09-missing", "c09-times", "c09-outcomes", "c09-relations", "c09-paths", "c09-equalcounts"}, *tier, 16, true)
 		run.Set("rule", "records rendered from structured descriptions in which every free value is a unique tag: (a) all 65536 st_mode values on the PATH record selected for an open event; (b) every order of every subset of <=3 (quick) / <=4 (thorough) records from {CWD, PATH, PATH(PARENT), EXECVE, SOCKADDR, PROCTITLE, AVC, BPRM_FCAPS} with the SYSCALL at every position x 6 syscalls x {no collision, colliding key pid, colliding key foo} x {with, without EOE}; (c) every record type as a single user-space style record; (d) error-side groups. Oracle: identity from the first record; every (k,v) of every record's own Data() (separate parse) is a leaf of the JSON-flattened event or a warning names k (only SYSCALL items may vanish); File block mirrors the selected PATH; object type agrees with S_IFMT. non-trivial = event that passed every clause")
 		run.Set("exhaustive", true)
 		run.Assume("tagged values make containment exact; format-constrained short values (0, 2, yes) can coincide with other leaves, which only weakens detection, never raises an alarm")
